@@ -20,7 +20,7 @@ VALUES = [0, 1, -1, 2, -2, 15, 16, 17, -15, -16, -17, 255, 256, 257, -255, -256,
 ARITH = ["+", "-"]
 REL = ["=", "~=", "<", "<=", ">", ">="]
 LOGIC = ["and", "or"]
-CONTEXTS = ["exitarg", "assign", "actual", "return", "condition", "sysarg", "subscript", "nested"]
+CONTEXTS = ["exitarg", "assign", "actual", "return", "condition", "sysarg", "subscript", "nested", "valdecl", "constnest", "constcmp"]
 
 
 def s32(v):
@@ -113,6 +113,19 @@ def program(e, vals, mode, context, rnd, boolean):
         body = [("sysst", 0, [("sub", "tab", E)])]
     elif context == "nested":
         body = [("sysst", 0, [("bin", "+", ("var", "x0"), ("bin", "-", E, ("var", "x0")))])]
+    elif context == "valdecl":
+        # the folded value is what a val carries; with run-time leaves the same expression is assigned instead
+        if mode == "K":
+            globs.insert(len(vals), ("val", "vres", E))
+            body = [("sysst", 0, [("var", "vres")])]
+        else:
+            body = [("ass", ("var", "r"), E), ("sysst", 0, [("var", "r")])]
+    elif context == "constnest":
+        # the folded value feeds an enclosing constant expression (OptimiseExpr rewrites a relational operator that
+        # sits directly in a non-constant context, so only nesting or a val exposes its folded value)
+        body = [("sysst", 0, [("bin", "+", E, ("num", 0))])]
+    elif context == "constcmp":
+        body = [("sysst", 0, [("bin", "-", ("num", 1), ("bin", "=", E, ("num", 1)))])]
     else:
         raise ValueError(context)
     procs.append({"kind": "proc", "name": "main", "formals": [], "locals": [], "body": ("seq", init + body)})
@@ -237,6 +250,8 @@ def groups_for(tier, rnd):
             e = ("bin", op, ("leaf", 0), ("leaf", 1))
             boolean = op in REL
             ctxs = CONTEXTS if tier != "quick" and n % 16 == 0 else [CONTEXTS[n % len(CONTEXTS)]]
+            if op in REL:
+                ctxs = list(dict.fromkeys(list(ctxs) + [("valdecl", "constnest", "constcmp")[n % 3]]))
             n += 1
             for ctx in ctxs:
                 if ctx == "subscript":
